@@ -482,6 +482,17 @@ def d6(ctx, rep):
     wide = any(h.type is None or (isinstance(h.type, ast.Name) and h.type.id in ('Exception', 'BaseException')) for h in t.handlers)
     rep.check('D6.fallback', fn, t.handlers[0] if t.handlers else t, wide, 'catches Exception', 'the handler is narrower than Exception: other fit failures abort GaussianMultivariate.fit',
               construct='handler class')
+    # a narrower handler placed before the wide one that re-raises takes those failures away from the fallback
+    import builtins
+    for h in t.handlers:
+        if h.type is None or (isinstance(h.type, ast.Name) and h.type.id in ('Exception', 'BaseException')):
+            break
+        classes = [e for e in (h.type.elts if isinstance(h.type, ast.Tuple) else [h.type])]
+        names = [c.id if isinstance(c, ast.Name) else c.attr if isinstance(c, ast.Attribute) else None for c in classes]
+        ordinary = [n_ for n_ in names if n_ and isinstance(getattr(builtins, n_, None), type) and issubclass(getattr(builtins, n_), Exception)]
+        if ordinary and h.body and isinstance(h.body[-1], ast.Raise) and not any(isinstance(x, ast.Return) for s_ in h.body for x in ast.walk(s_)):
+            rep.bad('D6.fallback', fn, h, f'a fit failure of class {"/".join(ordinary)} is re-raised before the fallback handler: the column is not modelled by a Gaussian and '
+                    'GaussianMultivariate.fit aborts', construct='no failure class bypasses the fallback')
     fvar = fits[0].func.value.id if isinstance(fits[0].func.value, ast.Name) else None
     rets = [n for n in walk_no_nested(fn.node) if isinstance(n, ast.Return)]
     reassigned = None
